@@ -664,6 +664,17 @@ def gen_reg(rng, tier):
         m += 1
         script.append(["log", m, "main"])
         out.append({"script": script, "fails": [k for k in range(1, m + 1) if rng.random() < 0.25], "hold": rng.random() < 0.6})
+    # a long backlog behind a stalled destination (nothing offered may be dropped however many are waiting), and a
+    # destination that stays stalled for seconds after stopService() was called (its result must not fire before the
+    # backlog has been written, however long that takes)
+    for k in range(2 if tier == "quick" else 6):
+        m = rng.choice([1100, 1500, 2600]) if k % 2 == 0 else rng.choice([2001, 3500])
+        script = [["start"]] + [["log", i, "main"] for i in range(1, m + 1)] + [["stop"], ["log", m + 1, "main"]]
+        out.append({"script": script, "fails": [i for i in range(1, m + 1) if rng.random() < 0.01], "hold": True, "burst": m})
+    for k in range(1 if tier == "quick" else 4):
+        m = rng.randrange(2, 9)
+        script = [["start"]] + [["log", i, rng.choice(["main", "other"])] for i in range(1, m + 1)] + [["stop"]]
+        out.append({"script": script, "fails": [], "hold": True, "late_release": rng.choice([5.5, 6.5, 8.0])})
     return out
 
 
@@ -712,12 +723,21 @@ def impl_reg(case):
                 writer.startService()
                 steps.append(["start", any(d is writer for d in orig._destinations), bool(writer.running)])
             elif op[0] == "stop":
-                release[0].set()
-                h = writer.stopService()
-                done = h.done.wait(10)
+                early = None
+                if case.get("late_release"):
+                    # the destination stays stalled for a while after stopService() was called
+                    h = writer.stopService()
+                    fired = h.done.wait(case["late_release"])
+                    with lock:
+                        early = [bool(fired), len(calls)]
+                    release[0].set()
+                else:
+                    release[0].set()
+                    h = writer.stopService()
+                done = h.done.wait(30 if case.get("burst") else 10)
                 with lock:
                     steps.append(["stop", any(d is writer for d in orig._destinations), bool(writer.running), done,
-                                  len(calls), type(h.error).__name__ if h.error is not None else None])
+                                  len(calls), type(h.error).__name__ if h.error is not None else None, early])
             else:
                 if op[2] == "main":
                     log(op[1])
@@ -750,6 +770,9 @@ def oracle_reg(case, obs):
             started = False
             want += cycle
             per_cycle.append(list(cycle))
+            if len(st) > 6 and st[6] is not None and st[6][0] and st[6][1] < len(want):
+                return ("stopService's result fired while the destination was still stalled: %d of the %d messages offered "
+                        "before it had been written" % (st[6][1], len(want)))
             if not st[3]:
                 return "stopService's result did not fire within 10 s"
             if st[5] is not None:
